@@ -75,7 +75,10 @@ type vmSymLoop struct {
 	d   int
 	sym string
 }
-type vmIndicator struct{ text string }
+type vmIndicator struct {
+	text string
+	adj  int // constant part (-1 for the early-exit form, whose push follows unconditionally)
+}
 
 // vmVMRoles: anchors of the VM resolved by role.
 //
@@ -555,7 +558,7 @@ func (se *vmStackEval) evEffect(e vmEv) vmLin {
 		case vmSymLoop:
 			return vmLin{t: map[string]int{p.sym: p.d}}
 		case vmIndicator:
-			return vmLin{t: map[string]int{"[" + p.text + "]": 1}}
+			return vmLin{c: p.adj, t: map[string]int{"[" + p.text + "]": 1}}
 		}
 	}
 	return z
@@ -726,36 +729,39 @@ func (sp *vmStackPrep) replace(s ast.Stmt) (any, bool) {
 	return p, ok
 }
 
-// indicator: `if <cond mentioning x> { push(x) }` with no else.
-func (sp *vmStackPrep) indicatorOf(s *ast.IfStmt) (vmIndicator, bool) {
-	info := sp.se.fn.info
-	if s.Init != nil || s.Else != nil || len(s.Body.List) != 1 {
-		return vmIndicator{}, false
-	}
-	es, ok := s.Body.List[0].(*ast.ExprStmt)
+// pushOf: the statement is `push(x)` / `push(&x)` of the operand stack: returns the pushed variable.
+func (sp *vmStackPrep) pushOf(info *types.Info, s ast.Stmt) types.Object {
+	es, ok := s.(*ast.ExprStmt)
 	if !ok {
-		return vmIndicator{}, false
+		return nil
 	}
 	call, ok := es.X.(*ast.CallExpr)
 	if !ok || len(call.Args) != 1 {
-		return vmIndicator{}, false
+		return nil
 	}
 	if _, isPush := sp.se.r.stack.push[CalleeOf(info, call)]; !isPush {
-		return vmIndicator{}, false
+		return nil
 	}
 	arg := ast.Unparen(call.Args[0])
 	if u, ok := arg.(*ast.UnaryExpr); ok && u.Op == token.AND {
 		arg = u.X
 	}
-	obj := vmObjOf(info, arg)
-	if obj == nil || !vmMentionsObj(info, s.Cond, obj) {
-		return vmIndicator{}, false
+	return vmObjOf(info, arg)
+}
+
+// aboutOnly: every atom of the condition mentions obj (the test is a property of the pushed value).
+func vmAboutOnly(info *types.Info, cond ast.Expr, obj types.Object) bool {
+	if obj == nil || !vmMentionsObj(info, cond, obj) {
+		return false
 	}
-	// every atom of the condition must be about the pushed value
 	onlyAbout := true
 	var atoms func(e ast.Expr)
 	atoms = func(e ast.Expr) {
 		e = ast.Unparen(e)
+		if u, ok := e.(*ast.UnaryExpr); ok && u.Op == token.NOT {
+			atoms(u.X)
+			return
+		}
 		if b, ok := e.(*ast.BinaryExpr); ok && (b.Op == token.LAND || b.Op == token.LOR) {
 			atoms(b.X)
 			atoms(b.Y)
@@ -765,11 +771,107 @@ func (sp *vmStackPrep) indicatorOf(s *ast.IfStmt) (vmIndicator, bool) {
 			onlyAbout = false
 		}
 	}
-	atoms(s.Cond)
-	if !onlyAbout {
+	atoms(cond)
+	return onlyAbout
+}
+
+// condOf: the condition of an if, a boolean local that is defined exactly once looked
+// through (`producesValue := res != nil && …; if producesValue {…}`) provided the value it
+// describes is not assigned between the definition and the test.
+func (sp *vmStackPrep) condOf(fn *vmFn, s *ast.IfStmt, about types.Object) ast.Expr {
+	id, ok := ast.Unparen(s.Cond).(*ast.Ident)
+	if !ok {
+		return s.Cond
+	}
+	obj := vmObjOf(fn.info, id)
+	def := vmSingleDef(fn, obj)
+	if def == nil || obj == nil {
+		return s.Cond
+	}
+	stale := false
+	ast.Inspect(fn.fd.Body, func(n ast.Node) bool {
+		if as, ok := n.(*ast.AssignStmt); ok && as.Pos() > def.Pos() && as.Pos() < s.Pos() {
+			for _, l := range as.Lhs {
+				if vmObjOf(fn.info, l) == about {
+					stale = true
+				}
+			}
+		}
+		return true
+	})
+	if stale {
+		return s.Cond
+	}
+	return def
+}
+
+// vmNegText renders the negation of a condition (De Morgan, comparison operators flipped).
+func vmNegText(e ast.Expr) string {
+	e = ast.Unparen(e)
+	switch x := e.(type) {
+	case *ast.UnaryExpr:
+		if x.Op == token.NOT {
+			return exprStr(ast.Unparen(x.X))
+		}
+	case *ast.BinaryExpr:
+		flip := map[token.Token]token.Token{token.EQL: token.NEQ, token.NEQ: token.EQL, token.LSS: token.GEQ, token.GEQ: token.LSS, token.GTR: token.LEQ, token.LEQ: token.GTR}
+		switch {
+		case x.Op == token.LOR:
+			return vmNegText(x.X) + " && " + vmNegText(x.Y)
+		case x.Op == token.LAND:
+			return "(" + vmNegText(x.X) + " || " + vmNegText(x.Y) + ")"
+		case flip[x.Op] != token.ILLEGAL:
+			return exprStr(x.X) + " " + flip[x.Op].String() + " " + exprStr(x.Y)
+		}
+	}
+	return "!(" + exprStr(e) + ")"
+}
+
+// indicator: `if <cond about x> { push(x) }` with no else: the push contributes [cond].
+func (sp *vmStackPrep) indicatorOf(fn *vmFn, s *ast.IfStmt) (vmIndicator, bool) {
+	info := fn.info
+	if s.Init != nil || s.Else != nil || len(s.Body.List) != 1 {
 		return vmIndicator{}, false
 	}
-	return vmIndicator{text: exprStr(s.Cond)}, true
+	obj := sp.pushOf(info, s.Body.List[0])
+	if obj == nil {
+		return vmIndicator{}, false
+	}
+	cond := sp.condOf(fn, s, obj)
+	if !vmAboutOnly(info, cond, obj) {
+		return vmIndicator{}, false
+	}
+	return vmIndicator{text: exprStr(cond)}, true
+}
+
+// earlyExitIndicator: the same guard written with an early exit at the end of a switch clause,
+//
+//	if <!cond about x> { break }
+//	push(x)            // last statement of the clause
+//
+// Falling out of the clause and `break` continue at the same place, so the pair is
+// `if cond { push(x) }`: the if statement contributes [cond]-1 and the push its +1.
+func (sp *vmStackPrep) earlyExitIndicator(fn *vmFn, list []ast.Stmt) {
+	if len(list) < 2 {
+		return
+	}
+	s, ok := list[len(list)-2].(*ast.IfStmt)
+	if !ok || s.Init != nil || s.Else != nil || len(s.Body.List) != 1 {
+		return
+	}
+	br, ok := s.Body.List[0].(*ast.BranchStmt)
+	if !ok || br.Tok != token.BREAK || br.Label != nil {
+		return
+	}
+	obj := sp.pushOf(fn.info, list[len(list)-1])
+	if obj == nil {
+		return
+	}
+	cond := sp.condOf(fn, s, obj)
+	if !vmAboutOnly(fn.info, cond, obj) {
+		return
+	}
+	sp.repl[s] = vmIndicator{text: vmNegText(cond), adj: -1}
 }
 
 func (sp *vmStackPrep) prepare(fn *vmFn, n ast.Node) {
@@ -790,10 +892,15 @@ func (sp *vmStackPrep) prepare(fn *vmFn, n ast.Node) {
 			sp.loop(fn, x, x.Body)
 			return false
 		case *ast.IfStmt:
-			if ind, ok := sp.indicatorOf(x); ok {
+			if _, done := sp.repl[x]; done {
+				return false
+			}
+			if ind, ok := sp.indicatorOf(fn, x); ok {
 				sp.repl[x] = ind
 				return false
 			}
+		case *ast.CaseClause:
+			sp.earlyExitIndicator(fn, x.Body)
 		}
 		return true
 	})
